@@ -43,35 +43,50 @@
 (*    twin must receive when the caller omits it.                          *)
 (*  - raise_error / raise_warning and species-specific `<name>_kwargs`     *)
 (*    are not enumerated.                                                  *)
+(* Quantifier audit (round 5): every class that inherits the generic       *)
+(* getters is a class of the space (auxiliary models GasPressureAdj,       *)
+(* PiecewiseCovEffect, Reference, References, SingleNasa9; the inherited   *)
+(* Cv, U, F of the polynomials); reactions are built from StatMech or      *)
+(* NASA species (spk); an accepted option is omitted, set, or (expl)       *)
+(* passed explicitly at its documented default value.                      *)
 (***************************************************************************)
 EXTENDS Integers, Sequences, FiniteSets, TLC
 
-CONSTANT Variant   \* "required" | "modes_elements" | "shomate_S" | "chemkin_Hact" | "nasa_Cp" | "shomate_native"
+CONSTANT Variant,    \* "required" | "modes_elements" | "shomate_S" | "chemkin_Hact" | "nasa_Cp" | "shomate_native" | "cv_permass"
+         ShomateOwn, \* the units (records of Units) a Shomate polynomial is stored in
+         ClassFilter \* the classes enumerated (all of them, except in the cfgs of the deviating variants)
 
 \* ---------------------------------------------------------------- classes
 ModeKinds == {"FreeTrans", "HarmonicVib", "QRRHOVib", "EinsteinVib", "DebyeVib",
               "RigidRotor", "GroundStateElec", "EmptyNucl", "EmptyMode", "ConstantMode"}
+\* other classes that inherit the generic dimensional getters of _ModelBase
+AuxCls == {"GasPressureAdj", "PiecewiseCovEffect", "Reference", "References", "SingleNasa9"}
 Empirical == {"Nasa", "Nasa9", "Shomate"}
 SpeciesCls == {"StatMech"} \cup Empirical
 RxnCls == {"Reaction", "ChemkinReaction", "SurfaceReaction"}
-Classes == ModeKinds \cup SpeciesCls \cup RxnCls
+Classes == ModeKinds \cup AuxCls \cup SpeciesCls \cup RxnCls
+\* classes that carry `elements`: the per-mass unit forms exist for them
+MassCls == SpeciesCls \cup {"Reference"}
 
 Quantities == {"Cv", "Cp", "U", "H", "S", "F", "G", "E"}
 Energy(q) == q \in {"U", "H", "F", "G", "E"}
 Forms == {"plain", "state", "delta", "act"}
 States == {"reactants", "products", "transition state"}
 
-\* species inside a reaction: Reaction is exercised with StatMech species (all
-\* quantities exist), the two MKM classes with NASA species (they need .phase)
-SpeciesIn(cls) == IF cls = "Reaction" THEN "StatMech" ELSE "Nasa"
+\* species a reaction is built from (ChemkinReaction needs .phase: NASA species only)
+SpeciesKinds(cls) == CASE cls \in {"Reaction", "SurfaceReaction"} -> {"StatMech", "Nasa"}
+                       [] cls = "ChemkinReaction" -> {"Nasa"}
+                       [] OTHER -> {"none"}
 
-QOf(kind) == CASE kind \in ModeKinds -> Quantities \ {"E"}
-               [] kind = "StatMech"  -> Quantities
-               [] OTHER              -> {"Cp", "H", "S", "G"}
+QOf(kind) == CASE kind = "StatMech"  -> Quantities
+               [] kind = "SingleNasa9" -> {"Cp", "H", "S", "G"}
+               [] OTHER -> Quantities \ {"E"}     \* modes, auxiliary models, polynomials (Cv, U, F inherited)
+\* what a reaction of NASA species is asked (the inherited zeros of a polynomial are asked on the species)
+QRx(spk) == IF spk = "StatMech" THEN Quantities ELSE {"Cp", "H", "S", "G"}
 
-HasGetter(cls, form, q) ==
+HasGetter(cls, form, q, spk) ==
    IF cls \in RxnCls
-   THEN form # "plain" /\ (q \in QOf(SpeciesIn(cls)) \/ (form = "act" /\ q = "E"))
+   THEN form # "plain" /\ (q \in QRx(spk) \/ (form = "act" /\ q = "E"))
    ELSE form = "plain" /\ q \in QOf(cls)
 
 \* ------------------------------------------------------------ method names
@@ -117,30 +132,42 @@ SpeciesOpts(kind, q) ==
           ELSE {"P", "x", "use_references", "verbose"}
                \cup (IF q \in {"S", "F", "G"} THEN {"S_elements"} ELSE {})
      [] kind \in Empirical ->
-          {"P", "x"} \cup (IF q \in {"S", "G"} THEN {"S_elements"} ELSE {})
-     [] kind = "FreeTrans" -> IF q \in {"S", "F", "G"} THEN {"P"} ELSE {}
+          IF q \in {"Cv", "U"} THEN {}                     \* inherited, closed twins
+          ELSE {"P", "x"} \cup (IF q \in {"S", "F", "G"} THEN {"S_elements"} ELSE {})
+     [] kind \in {"FreeTrans", "GasPressureAdj"} -> IF q \in {"S", "F", "G"} THEN {"P"} ELSE {}
+     [] kind = "PiecewiseCovEffect" -> IF q \in {"U", "H", "F", "G"} THEN {"x"} ELSE {}
      [] OTHER -> {}
 
-\* keywords (besides units / T / state) that the dimensional getter may be given
-Accepted(cls, form, q) ==
+\* keywords (besides units / T / state / descriptors) that the dimensional getter may be given
+Accepted(cls, form, q, spk) ==
    IF cls \notin RxnCls THEN SpeciesOpts(cls, q)
-   ELSE LET k == SpeciesIn(cls)
-            base == IF q = "E"
-                    THEN (IF form = "act" THEN (IF k = "Nasa" THEN {"x"} ELSE {}) ELSE {"include_ZPE"})
-                    ELSE IF k = "StatMech"
+   ELSE LET base == IF q = "E"
+                    THEN (IF form = "act" THEN {"x"} ELSE {"include_ZPE"})
+                    ELSE IF spk = "StatMech"
                          THEN {"P", "use_references"}
                               \cup (IF q \in {"S", "F", "G"} THEN {"S_elements"} ELSE {})
-                         ELSE SpeciesOpts("Nasa", q)
+                              \* np.max over the per-mode vectors is not defined in either form
+                              \cup (IF cls = "SurfaceReaction" /\ form = "act" /\ q \in {"H", "G"}
+                                    THEN {} ELSE {"verbose"})
+                         ELSE {"P", "x"} \cup (IF q \in {"S", "G"} THEN {"S_elements"} ELSE {})
         IN base \cup (IF form = "delta" THEN {"rev", "act"} ELSE {})
                 \cup (IF form = "act" THEN {"rev"} ELSE {})
                 \cup (IF form = "act" /\ q = "E" THEN {"del_m"} ELSE {})
 
 \* T has a documented default in these getters (298.15 K)
 HasDefaultT(cls, form, q) ==
-   \/ cls \in ModeKinds \cup {"StatMech"} /\ Energy(q)
+   \/ cls \in ModeKinds \cup AuxCls \cup {"StatMech"} /\ Energy(q)
+   \/ cls \in Empirical /\ q \in {"U", "F"}
    \/ cls \in RxnCls /\ form = "state" /\ q = "E"
 
-Shapes(cls) == IF cls \in Empirical THEN {"scalar", "array"} ELSE {"scalar"}
+\* arrays of temperatures: the polynomials (not through the closed inherited twins, which
+\* return the scalar 0), and reactions of NASA species except where the clamp max(0, ., .)
+\* of the MKM classes is taken over arrays (not defined in either form)
+Shapes(cls, form, q, spk) ==
+   IF \/ cls \in Empirical /\ q \notin {"Cv", "U"}
+      \/ cls \in RxnCls /\ spk = "Nasa"
+            /\ ~(cls \in {"ChemkinReaction", "SurfaceReaction"} /\ form = "act" /\ q \in {"H", "G"})
+   THEN {"scalar", "array"} ELSE {"scalar"}
 \* Shomate adds the misc-model vector unsummed (C13): with two misc models an
 \* array of temperatures does not evaluate in either form, so no coverage model there
 ArrayOK(cls, o) == cls = "Shomate" => "x" \notin o
@@ -150,34 +177,42 @@ ArrayOK(cls, o) == cls = "Shomate" => "x" \notin o
 Phases(cls) == IF cls \in Empirical THEN {"gas", "condensed"} ELSE {"none"}
 \* A Shomate polynomial stores its coefficients in a unit of its own (`units` attribute, any
 \* key of the R table).  The relation must hold whatever that unit is, in particular when the
-\* caller asks for the very same unit: the object is built in several fitting units and asked
-\* in every unit string, its own included (MustAsk is asked in every tier).
+\* caller asks for the very same unit: the object is built in the fitting units ShomateOwn
+\* (all 16 keys in the thorough tier, a quarter of them rotating with the seed in quick) and
+\* asked in every unit string, its own included.
 NoUnit == [e |-> "none", per |-> "none"]
-OwnUnits(cls) == IF cls = "Shomate"
-                 THEN {[e |-> "J", per |-> "mol"], [e |-> "kJ", per |-> "mol"],
-                       [e |-> "cal", per |-> "mol"], [e |-> "eV", per |-> "molecule"]}
-                 ELSE {NoUnit}
+OwnUnits(cls) == IF cls = "Shomate" THEN ShomateOwn ELSE {NoUnit}
 PhaseOpts(ph, acc) == IF ph = "condensed" THEN acc \ {"P"} ELSE acc
 
 CellsOf(cls, form, q) ==
-   IF ~HasGetter(cls, form, q) THEN {}
-   ELSE {c \in {[cls |-> cls, form |-> form, q |-> q, state |-> s, opts |-> o,
-                 shape |-> sh, tgiven |-> tg, phase |-> ph, own |-> ow] :
+   UNION {
+   IF ~HasGetter(cls, form, q, spk) THEN {}
+   ELSE {c \in {[cls |-> cls, form |-> form, q |-> q, state |-> s, opts |-> o, expl |-> ex,
+                 shape |-> sh, tgiven |-> tg, phase |-> ph, own |-> ow, spk |-> spk] :
                    s \in (IF form = "state" THEN States ELSE {"none"}),
-                   o \in SUBSET Accepted(cls, form, q),
-                   sh \in Shapes(cls), tg \in BOOLEAN,
+                   o \in SUBSET Accepted(cls, form, q, spk), ex \in BOOLEAN,
+                   sh \in Shapes(cls, form, q, spk), tg \in BOOLEAN,
                    ph \in Phases(cls), ow \in OwnUnits(cls)} :
-           /\ c.opts \subseteq PhaseOpts(c.phase, Accepted(cls, form, q))
+           LET acc == PhaseOpts(c.phase, Accepted(cls, form, q, spk)) IN
+           /\ c.opts \subseteq acc
+           \* explicit documented defaults: with no or one option set, and only if something is left
+           /\ c.expl => (Cardinality(c.opts) <= 1 /\ acc \ c.opts # {})
            /\ c.shape = "array" => ArrayOK(cls, c.opts)
-           /\ ~c.tgiven => (HasDefaultT(cls, form, q) /\ c.opts = {} /\ c.shape = "scalar")}
+           /\ ~c.tgiven => (HasDefaultT(cls, form, q) /\ c.opts = {} /\ ~c.expl /\ c.shape = "scalar")}
+   : spk \in SpeciesKinds(cls)}
 
-Cells == UNION {CellsOf(cls, form, q) : cls \in Classes, form \in Forms, q \in Quantities}
+Cells == UNION {CellsOf(cls, form, q) : cls \in Classes \cap ClassFilter, form \in Forms, q \in Quantities}
 
-UnitsOf(c) == {u \in Units : PerMass(u) => c.cls \in SpeciesCls}
+UnitsOf(c) == {u \in Units : PerMass(u) => c.cls \in MassCls}
+
+Acc(c) == PhaseOpts(c.phase, Accepted(c.cls, c.form, c.q, c.spk))
+\* options passed explicitly at their documented default value
+AtDefault(c) == IF c.expl THEN Acc(c) \ c.opts ELSE {}
+Passed(c) == c.opts \cup AtDefault(c)
 
 \* object features the harness has to attach so that the options matter
 \* (References has no get_FoRT: a referenced species has no F unless references are off)
-NeedsRefs(c) == /\ c.cls \in {"StatMech", "Reaction"}
+NeedsRefs(c) == /\ c.cls = "StatMech" \/ c.spk = "StatMech"
                 /\ ~(c.q = "F" /\ "use_references" \notin c.opts)
 NeedsCov(c) == /\ c.cls \in SpeciesCls \cup RxnCls
                /\ ~(c.cls = "Shomate" /\ c.shape = "array")
@@ -189,20 +224,32 @@ ResultShape(c) == IF "verbose" \in c.opts THEN "verbose" ELSE c.shape
 \* documented defaults the wrapper fills in when the caller omits the keyword
 Defaults(c) ==
    (IF ~c.tgiven THEN {<<"T", "T0">>} ELSE {})
-   \cup (IF c.cls = "SurfaceReaction" /\ c.form = "act" /\ c.q = "G" /\ "P" \notin c.opts
+   \cup (IF c.cls = "SurfaceReaction" /\ c.form = "act" /\ c.q = "G" /\ "P" \notin Passed(c)
          THEN {<<"P", "one_bar">>} ELSE {})
-KwD(c) == {"units"} \cup (IF c.tgiven THEN {"T"} ELSE {}) \cup c.opts
+NeedsDescriptors(c) == c.cls = "References" /\ c.q \in {"H", "G"}
+KwD(c) == {"units"} \cup (IF c.tgiven THEN {"T"} ELSE {}) \cup Passed(c)
           \cup (IF c.form = "state" THEN {"state"} ELSE {})
-\* a bare mode's dimensionless getter has a closed signature; the generic wrapper
-\* (_force_pass_arguments) hands it the keywords it names and nothing else
-ModeTakes(kind, q) ==
-   CASE kind \in {"HarmonicVib", "QRRHOVib", "EinsteinVib", "DebyeVib"} -> {"T"}
-     [] kind = "FreeTrans"  -> IF q \in {"S", "F", "G"} THEN {"T", "P"} ELSE {}
-     [] kind = "RigidRotor" -> IF q \in {"S", "F", "G"} THEN {"T"} ELSE {}
-     [] kind \in {"GroundStateElec", "ConstantMode"} -> IF q \in {"U", "H", "F", "G"} THEN {"T"} ELSE {}
-     [] OTHER -> {}
+          \cup (IF NeedsDescriptors(c) THEN {"descriptors"} ELSE {})
+\* The parameter list of the dimensionless getter of a non-reaction class; "**" stands for
+\* **kwargs.  A closed signature receives, through _force_pass_arguments, the keywords it
+\* names and nothing else.
+Takes(cls, q) ==
+   CASE cls \in {"HarmonicVib", "QRRHOVib", "EinsteinVib", "DebyeVib"} -> {"T"}
+     [] cls = "FreeTrans"  -> IF q \in {"S", "F", "G"} THEN {"T", "P"} ELSE {}
+     [] cls = "RigidRotor" -> IF q \in {"S", "F", "G"} THEN {"T"} ELSE {}
+     [] cls \in {"GroundStateElec", "ConstantMode"} -> IF q \in {"U", "H", "F", "G"} THEN {"T"} ELSE {}
+     [] cls \in {"EmptyNucl", "EmptyMode"} -> {}
+     [] cls = "GasPressureAdj" -> IF q = "S" THEN {"P"} ELSE IF q \in {"F", "G"} THEN {"**"} ELSE {}
+     [] cls = "PiecewiseCovEffect" -> IF q \in {"U", "H", "F", "G"} THEN {"x", "T"} ELSE {}
+     [] cls = "References" -> IF q \in {"H", "G"} THEN {"descriptors", "T"}
+                              ELSE IF q = "F" THEN {"**"} ELSE {}
+     [] cls = "Reference" -> IF q \in {"F", "G"} THEN {"**"} ELSE {}
+     [] cls = "SingleNasa9" -> IF q = "G" THEN {"**"} ELSE {"T"}
+     [] cls \in Empirical -> IF q \in {"Cv", "U"} THEN {} ELSE {"**"}
+     [] OTHER -> {"**"}
+Closed(c) == c.cls \notin RxnCls /\ "**" \notin Takes(c.cls, c.q)
 KwT(c) == LET all == (KwD(c) \ {"units"}) \cup {d[1] : d \in Defaults(c)}
-          IN IF c.cls \in ModeKinds THEN all \cap ModeTakes(c.cls, c.q) ELSE all
+          IN IF Closed(c) THEN all \cap Takes(c.cls, c.q) ELSE all
 
 Required(c, u) ==
    [raises |-> FALSE, twin |-> Twin(c.form, c.q), kw |-> KwT(c), dflt |-> Defaults(c),
@@ -213,27 +260,29 @@ Required(c, u) ==
 
 \* keywords the twin's value can depend on
 Relevant(c) ==
-   {"T", "state", "rev", "act", "del_m", "include_ZPE", "verbose"}
+   {"T", "state", "descriptors", "rev", "act", "del_m", "include_ZPE", "verbose"}
    \cup (IF c.q \in {"S", "F", "G"} THEN {"P", "S_elements"} ELSE {})
    \cup (IF c.q \in {"U", "H", "F", "G"} \/ (c.q = "E" /\ c.form = "act") THEN {"x"} ELSE {})
    \cup (IF c.q \in {"H", "G"} THEN {"use_references"} ELSE {})
 
 \* the wrappers of the pinned tree that are not the generic one
 Dropped(c) ==
-   CASE Variant = "shomate_S" /\ c.cls = "Shomate" /\ c.q = "S" -> c.opts \ {"S_elements"}
+   CASE Variant = "shomate_S" /\ c.cls = "Shomate" /\ c.q = "S" -> Passed(c) \ {"S_elements"}
      [] Variant = "chemkin_Hact" /\ c.cls = "ChemkinReaction" /\ c.form = "act" /\ c.q = "H"
-          -> c.opts \cap {"rev"}
-     [] Variant = "nasa_Cp" /\ c.cls \in {"Nasa", "Nasa9"} /\ c.q = "Cp" -> c.opts
+          -> Passed(c) \cap {"rev"}
+     [] Variant = "nasa_Cp" /\ c.cls \in {"Nasa", "Nasa9"} /\ c.q = "Cp" -> Passed(c)
      [] OTHER -> {}
-\* _ModelBase.get_Cp/U/S/F/G read self.elements before anything else
 \* seeded change C04-5: a "native units" shortcut of Shomate.get_S (requested unit = own unit,
 \* no misc model) subtracts the dimensionless entropy of the elements from a dimensional value
 NativeShortcut(c, u) == /\ Variant = "shomate_native" /\ c.cls = "Shomate" /\ c.q = "S"
                         /\ u = c.own /\ ~NeedsCov(c) /\ c.phase = "condensed"
                         /\ "S_elements" \in c.opts
-ImplRaises(c) == Variant = "modes_elements" /\ c.cls \in ModeKinds
-                 /\ c.q \in {"Cp", "U", "S", "F", "G"}
-Impl(c, u) == IF ImplRaises(c) THEN [Required(c, u) EXCEPT !.raises = TRUE]
+\* _ModelBase.get_Cp/U/S/F/G read self.elements before anything else (modes have none);
+\* _ModelBase.get_Cv looks R up under the caller's string, so a per-mass unit is refused
+ImplRaises(c, u) ==
+   \/ Variant = "modes_elements" /\ c.cls \in ModeKinds /\ c.q \in {"Cp", "U", "S", "F", "G"}
+   \/ Variant = "cv_permass" /\ c.cls \in Empirical \cup {"Reference"} /\ c.q = "Cv" /\ PerMass(u)
+Impl(c, u) == IF ImplRaises(c, u) THEN [Required(c, u) EXCEPT !.raises = TRUE]
               ELSE [Required(c, u) EXCEPT !.kw = @ \ Dropped(c), !.allTerms = ~NativeShortcut(c, u)]
 
 Same(i, r, c) ==
@@ -260,14 +309,15 @@ Refines == pc = "ret" => Same(res, Required(cell, unit), cell)
 \* structure of the case space
 WellFormed ==
    /\ "units" \notin KwT(cell) /\ "units" \in KwD(cell)
-   /\ cell.cls \notin ModeKinds => "T" \in KwT(cell)     \* species and reactions always get a temperature
+   /\ ~Closed(cell) => "T" \in KwT(cell)        \* species and reactions always get a temperature
    /\ KwT(cell) \subseteq (KwD(cell) \ {"units"}) \cup {d[1] : d \in Defaults(cell)}
    /\ Getter(cell.form, cell.q) # Twin(cell.form, cell.q)
    /\ RKey(unit) \in DOMAIN RTable
-   /\ cell.opts \subseteq PhaseOpts(cell.phase, Accepted(cell.cls, cell.form, cell.q))
+   /\ cell.opts \subseteq Acc(cell) /\ AtDefault(cell) \cap cell.opts = {}
    /\ MustAsk(cell) \subseteq UnitsOf(cell)
    /\ (cell.phase = "none") = (cell.cls \notin Empirical)
-   /\ PerMass(unit) => cell.cls \in SpeciesCls
+   /\ (cell.spk = "none") = (cell.cls \notin RxnCls)
+   /\ PerMass(unit) => cell.cls \in MassCls
    /\ (cell.form = "state") = (cell.state \in States)
 
 \* constant-level facts about the unit table
